@@ -23,9 +23,10 @@ def borrow(mod, names):
     return out
 
 
-PIPELINES += borrow(C13, ['U1_coordinate_parser_safety', 'U6_opl_parse_int_i64', 'U6_opl_parse_int_u32', 'U6_opl_parse_int_i32'])
+# (the coordinate parser's memory safety, U1_coordinate_parser_safety, is decided under C13 and - again - inside U1_coordinate_parser_value; it costs half a CPU hour and is not re-run here)
+PIPELINES += borrow(C13, ['U6_opl_parse_int_i64', 'U6_opl_parse_int_u32', 'U6_opl_parse_int_i32'])
 PIPELINES += borrow(C14, ['U2_next_utf8_codepoint', 'U5_opl_parse_escaped_safety', 'U6_opl_parse_string_safety'])
-PIPELINES += borrow(C02, ['U1_blob_header_size_network_byte_order', 'U5_ReferenceTable_get'])
+PIPELINES += borrow(C02, ['U1_blob_header_size_network_byte_order', 'U5_ReferenceTable_get', 'U5_ReferenceTable_add', 'U5_ReferenceTable_add_content'])
 
 # small OPL scanning helpers on arbitrary NUL-terminated input
 GHOST = 'size_t ghost_n;\n'
@@ -155,7 +156,7 @@ TRUSTED = ['expat, zlib, libbz2 internals']
 ASSUMPTIONS = ['input strings shorter than 100000 / 200000 bytes in the models (object-size bound; loop contracts make the proofs independent of it)']
 NOT_DECIDED = ['expat behaviour', 'attribute values inside the XML handlers (the lambdas are replaced by a havoc of their captures)', 
                'traversal of delivered objects (layout invariant)', 'pipeline-level hangs (threads)', 'allocation failure']
-LEVEL_TEXT = ('Proof for the layers function contracts reach: (1) the text/binary scanning kernels - coordinate parser, OPL integer/string/escape/space/section scanners, UTF-8 decoder, PBF blob header size, '
+LEVEL_TEXT = ('Proof for the layers function contracts reach: (1) the text/binary scanning kernels - OPL integer/string/escape/space/section scanners (the coordinate parser: see C13), UTF-8 decoder, PBF blob header size, '
               'o5m table lookup - are memory-safe on every NUL-terminated string or byte range of any length, throw only documented exceptions and terminate (loop contracts with decreases); these units '
               'are shared with C13, C14 and C02 and re-run here. (2) the object and changeset builders reject user names that do not fit with length_error for every length a parser can hand over - no assert '
               'can fire, nothing is truncated. (2b) the PBF decoder hands tag keys and values to the tag list only after a check for embedded zero bytes (the tag list is a sequence of zero-terminated strings; both tag paths, dense and plain). (3) the XML element handlers (top_level_element, data_level_element, start_element with get_tag, end_element), extracted whole, keep the builder protocol '
